@@ -27,6 +27,9 @@ fn main() {
             .spawn(move || {
                 if front {
                     let src = String::from_utf8_lossy(&bytes).to_string();
+                    // the same logical step budget as the main monitor: an exponential parse ends in an error
+                    // here instead of occupying the probe for hours
+                    pest::set_call_limit(std::num::NonZeroUsize::new(2_000_000 + 5_000 * src.len()));
                     match tx3_lang::parsing::parse_string(&src) {
                         Ok(mut p) => {
                             let _ = tx3_lang::analyzing::analyze(&mut p);
